@@ -295,10 +295,11 @@ def check_lp2(func_node, loop):
         if isinstance(n, (ast.If, ast.IfExp)):
             hit = False
             for c in ast.walk(n.test):
-                if isinstance(c, ast.Compare) and isinstance(c.left, ast.Name) and c.left.id == idx \
-                        and len(c.ops) == 1 and isinstance(c.ops[0], ast.Eq) \
-                        and isinstance(c.comparators[0], ast.Constant) and c.comparators[0].value == 0:
-                    hit = True
+                if isinstance(c, ast.Compare) and len(c.ops) == 1 and isinstance(c.ops[0], ast.Eq):
+                    sides = [c.left, c.comparators[0]]
+                    if any(isinstance(x, ast.Name) and x.id == idx for x in sides) and \
+                            any(isinstance(x, ast.Constant) and x.value == 0 and not isinstance(x.value, bool) for x in sides):
+                        hit = True
             if not hit:
                 continue
             n_sites += 1
@@ -472,8 +473,8 @@ def check_lp1c(func_node, loop):
         st = enclosing_stmt(n)
         p = getattr(st, '_parent', None)
         if isinstance(st, ast.AugAssign) and isinstance(p, ast.If) and any(b is st for b in p.orelse) \
-                and isinstance(p.test, ast.Compare) and isinstance(p.test.comparators[0], ast.Constant) \
-                and p.test.comparators[0].value == 0:
+                and isinstance(p.test, ast.Compare) and any(isinstance(x, ast.Constant) and x.value == 0
+                                                            for x in [p.test.left] + p.test.comparators):
             continue
         out.append(n)
     return out + swallowed
